@@ -331,7 +331,7 @@ def dyn_record(w: World, t: dict, sym: str):
             "opts": OPT_FLAGS[opts], "x": x, "u": u, "d": d, "rel": {"kind": "none", "has_base": False}, "twin": {"expect": "none"},
             "obs": {"valid": True, "nmsgs": 0, "valid_err": "", "elements": [el.name for el in w.net.elements], "elements_ok": True,
                     "np": {"has": False}, "np_plain": {"has": False}, "steps": [], "fn": [fn], "jac": [], "sens": [],
-                    "twin": {"has": False}}}
+                    "twin": {"has": False}, "spy": []}}
 
 
 def replay_transition(t: dict) -> dict:
